@@ -12,7 +12,7 @@ GATES = {
     'quick': {'evaluations': 25000, 'comments_vs_table': 8000, 'expected:leading': 2500, 'expected:trailing': 1200, 'expected:standalone': 1500,
               'layout:indented-comment': 2000, 'layout:blank-separated': 500, 'layout:mixed-class-adjacent': 300, 'layout:file-start': 500,
               'layout:file-end': 300, 'layout:after-last-meta-no-postings': 40, 'layout:before-dedent': 300, 'layout:nested-posting-meta': 100,
-              'history_steps': 6000, 'restore_checks': 800, 'idempotence_checks': 2500, 'parse_vs_later_checks': 2500},
+              'history_steps': 6000, 'handover_claims': 1500, 'manual_claims_judged': 2500, 'restore_checks': 800, 'idempotence_checks': 2500, 'parse_vs_later_checks': 2500},
     'thorough': {'evaluations': 500000, 'layout:after-last-meta-no-postings': 800},
 }
 RULE = ('case = one document from the comment-layout generator (comment runs, matching or mismatching indentation, adjacent above / below / '
@@ -200,17 +200,60 @@ def run_case(col, r, idx):
         root = f_off if idx % 2 else P.parse(text, models.File, auto_claim_comments=False)
         mg = ops.MiscGenerator(r)
         log = []
+        handover = {}
         pp = ops.pingpong_ops(root, r, r.randint(6, 14)) if idx % 3 == 2 else []
         pp.reverse()
         for s in range(max(r.randint(5, 15), len(pp))):
             op = pp.pop() if pp else mg.claim_op(root)
             if op is None:
                 continue
+            res = 'refused'
+            mc = getattr(op, 'manual_claim', None)
+            want = None
+            if mc is not None:
+                cur = vars(mc[0]).get(f'_{mc[1]}_comment')
+                want = ('current', cur) if cur is not None else ('adjacent', attribution.adjacent_comment(root, mc[0], mc[1]))
             try:
-                op.apply()
+                res = op.apply()
                 log.append(op.desc)
             except ValueError as e:
                 log.append(op.desc + f' -> refused ({e})')
+            if mc is not None and want[1] != 'unknown':
+                # a manual claim takes the comment on the adjacent line (same indentation class, no blank line) - wherever list
+                # placeholders happen to sit - or reports that it is already claimed; it never takes anything else
+                col.ev()
+                col.count('manual_claims_judged')
+                exp_c = want[1]
+                if res == 'refused':
+                    ok = want[0] == 'adjacent' and exp_c is not None and exp_c.claimed and not mc[2]
+                elif want[0] == 'current':
+                    ok = res is exp_c
+                elif exp_c is None:
+                    ok = res is None
+                elif exp_c.claimed and res is None:
+                    ok = mc[2] or vars(mc[0]).get(f'_{mc[1]}_comment') is None     # claimed by someone else, ignored on request
+                    ok = ok and mc[2]
+                else:
+                    ok = res is exp_c
+                if not ok:
+                    col.violation(f'manual-claim:{mc[1]}', f'{op.desc}: the adjacent comment is {exp_c!r}' +
+                                  (f' (claimed={exp_c.claimed})' if exp_c is not None else '') + f', the call returned {res!r}', dict(wit, calls=log))
+                    return
+            rr = getattr(op, 'round_robin', None)
+            if rr is not None:
+                # hand-over: once every possible owner has let the comment go, the same claim call has to succeed as it did one round
+                # earlier (unclaim followed by claim restores the attribution, whoever held the comment in between)
+                rnd, owner = rr
+                got = tuple(id(c) for c in res) if isinstance(res, tuple) else (id(res) if isinstance(res, models.BlockComment) else res)
+                if rnd >= 1:
+                    col.count('handover_claims')
+                if rnd == 1:
+                    handover[owner] = got
+                elif rnd == 2 and owner in handover and handover[owner] != got:
+                    col.violation('restore:hand-over', f'{op.desc}: after every owner had released the comment, this claim returned '
+                                  f'{"nothing" if got in (None, ()) else "something else"} although the same call one round earlier got the comment',
+                                  dict(wit, calls=log))
+                    return
             col.ev()
             col.count('history_steps')
             col.nontrivial(text, tuple(log))
